@@ -12,7 +12,11 @@ operation, the caller catches it and goes on; model: NetDriver.v [run_hist_i] (i
 Late registration (suites reg-late, reg-late-prefix): a configuration session registered while the connection sits in exec /
 privilege_exec / configuration / tclsh / inside another session, then configs at each session / configuration and commands;
 registering keeps the belief (REGISTER fact p_reg_keeps, from the ast), C03_register_in_any_level.  The oracle accepts a
-DUMMY belief as the known finding's premise only where the history accounts for it (dummy_explained)."""
+DUMMY belief as the known finding's premise only where the history accounts for it (dummy_explained).
+Abort-then (suite abort-then): send_config(s) with stop_on_failed whose k-th line fails (the platform _abort_config runs),
+then configs at the same / another / the default level, a command, an interactive, acquire_priv.  The oracle and the
+scenario loop take nothing from the translator's reading of _abort_config: when it refuses the function (tie reported
+broken) that platform's histories are still run on the real drivers and judged on the device's log (oracle-only)."""
 import itertools
 import json
 import os
@@ -290,8 +294,20 @@ def oracle_int(info, sc, obs):
     return None
 
 
-def oracle(info, sc, obs):
-    """returns None or (op index, what, in_known_region)"""
+def abort_unknown(pi):
+    """the translator refused this platform's _abort_config: the lines of its abort step have no id (not in line_ids)"""
+    return any("_abort_config not translated" in p for p in pi.get("problems", []))
+
+
+def untranslated(info, plat):
+    """the translator refused a function of this platform (reported as a broken tie): its histories cannot be put to the
+    model (lines / shapes without an id); the real code is still run on them and judged by the device-log oracle"""
+    return bool(info[plat].get("problems"))
+
+
+def oracle(info, sc, obs, belief=True):
+    """returns None or (op index, what, in_known_region).  belief=False: the device's execution log only (the property
+    itself: which line ran in which mode), without the belief observer"""
     if has_faults(sc):
         return oracle_int(info, sc, obs)
     info = info_for(info, sc)
@@ -323,10 +339,19 @@ def oracle(info, sc, obs):
                 return i, "line %r of %s ran in %r, not in %r" % (l, k, m, want), region
         if ob["result"] == "ok" and [l for (_, l) in ran] != ulines:
             return i, "%s: lines that reached the device %r, expected %r" % (k, [l for (_, l) in ran], ulines), region
-        for (m, l) in ob["log"]:
+        # the platform's abort step (after the failing line of a send_configs with stop_on_failed): its lines are in the
+        # table (navset) when the translator read _abort_config; when it refused the function the property puts no
+        # constraint on what the abort types, only on where the user lines of this and of the following operations run
+        free_from = None
+        if k == "cfgs" and o.get("stop") and abort_unknown(pi):
+            bad_at = [ix for ix, (_, l) in enumerate(ob["log"]) if l.startswith("bad ")]
+            free_from = bad_at[0] + 1 if bad_at else None
+        for ix, (m, l) in enumerate(ob["log"]):
             if l not in uset and l not in navset:
+                if free_from is not None and ix >= free_from and not TOKEN.search(l):
+                    continue
                 return i, "unexpected line %r executed in %r" % (l, m), region
-        if ob["belief"] != "DUMMY" and ob["belief"] != ob["mode"]:
+        if belief and ob["belief"] != "DUMMY" and ob["belief"] != ob["mode"]:
             return i, "after %s the driver believes %r but the device is in %r" % (k, ob["belief"], ob["mode"]), region
         if ob["result"] == "Starved":
             return i, "%s never completed (the device had nothing more to say)" % k, False
@@ -683,8 +708,66 @@ def reg_late_scenarios(info, thorough):
     return out
 
 
+# ------------------------------------------------------------------------------------------------
+# abort-then: send_config(s) with stop_on_failed=True whose k-th line fails — the platform's _abort_config runs (Junos:
+# rollback + leave, IOS-XR: abort, EOS / NX-OS: abort inside a session, nothing elsewhere) and assigns the tracked level
+# — and then the NEXT operations on the same connection: configs at the same level (where the belief alone decides
+# whether acquire_priv is skipped), at another level, at the default level, a command, an interactive, acquire_priv.
+# The oracle is the device's own record of the mode in which each line arrived; no part of it comes from the translator's
+# reading of _abort_config, so the histories are judged on the real code also when that function is refused.
+# ------------------------------------------------------------------------------------------------
+def abort_then_scenarios(info, thorough):
+    out = []
+    for plat in PLATFORMS:
+        pi = info[plat]
+        default = [n for n, i in pi["level_ids"].items() if i == pi["default"]][0]
+        registered = list(pi["sessions"])
+        names = [nm for nm in pi["level_ids"] if pi["level_ids"][nm] < pi["nbase"]] + registered
+        cfgs = [c for c in cfg_levels(pi) if c in names]
+        levels = [None] + cfgs[1:]           # None: the level send_configs promises when none is named ('configuration')
+        ks = (0, 1, 2) if thorough else (0, 2)
+        n = 0
+        for login in logins(pi):
+            for li, lv in enumerate(levels):
+                name = lv or cfgs[0]
+                others = [x for x in levels if x != lv]
+                if not thorough:
+                    others = others[li % len(others):][:1] if others else []
+                t1 = [{"op": "cfgs", "lines": ["show u4", "show u5"], "priv": lv},
+                      {"op": "cfgs", "lines": ["show u4", "show u5"], "priv": lv, "joined": True},
+                      {"op": "cfgs", "lines": ["show u4", "bad f1", "show u5"], "stop": True, "priv": lv},
+                      {"op": "cmds", "lines": ["show u4"], "single": True},
+                      {"op": "interactive", "lines": ["show u4"], "priv": name},
+                      {"op": "acquire", "level": name}]
+                t1 += [{"op": "cfgs", "lines": ["show u4"], "priv": x} for x in others]
+                if lv is None:
+                    t1.append({"op": "cfgs", "lines": ["show u4"], "priv": name})     # the same level, named
+                t2 = [{"op": "cmds", "lines": ["show u6"], "single": True}]
+                pres = [[]]
+                if thorough:
+                    t1 += [{"op": "cmds", "lines": ["show u4", "show u5"]}, {"op": "acquire", "level": default},
+                           {"op": "interactive", "lines": ["show u4"], "priv": None}]
+                    t2 += [{"op": "cfgs", "lines": ["show u6"], "priv": lv}, {"op": "cfgs", "lines": ["show u6"], "priv": None}]
+                    pres += [[{"op": "cfgs", "lines": ["show u0"], "priv": x}] for x in [x_ for x_ in levels if x_ != lv][:1]]
+                for pre in pres:
+                    for k in ks:
+                        for a in t1:
+                            for b in t2:
+                                n += 1
+                                first = {"op": "cfgs", "lines": ["show u%d" % (1 + j) for j in range(k)] + ["bad f0", "show u3"],
+                                         "stop": True, "priv": lv}
+                                if n % 3 == 0:
+                                    first["joined"] = True           # send_config: one string, split by the driver
+                                ops = [{"op": "open"}] + [{"op": "register", "name": s_} for s_ in registered] + \
+                                      [dict(o) for o in pre] + [first, dict(a), dict(b)]
+                                for stack in ("sync", "async"):
+                                    out.append(({"platform": plat, "stack": stack, "login": login, "secret": None,
+                                                 "policy": ["whole"], "ops": [dict(o) for o in ops]}, "abort-then"))
+    return out
+
+
 def logins(pi):
-    inv = {i: n for n, i in pi["level_ids"].items()}
+    inv ={i: n for n, i in pi["level_ids"].items()}
     return [inv[i] for i in pi["login"]]
 
 
@@ -741,7 +824,7 @@ def report_failure(rep, info, sc, obs, fail, suite):
                                 "signature": sig, "rerun": "./check C03 --replay <this file>"}, signature=sig)
 
 
-def shrink(info, sc, fail):
+def shrink(info, sc, fail, belief=True):
     """drop operations while the oracle still fails the same way (same text modulo op index)"""
     cur, curfail = sc, fail
     changed = True
@@ -750,7 +833,7 @@ def shrink(info, sc, fail):
         for j in range(len(cur["ops"]) - 1, 0, -1):
             cand = dict(cur, ops=cur["ops"][:j] + cur["ops"][j + 1:])
             try:
-                f = oracle(info, cand, run_history(info, cand))
+                f = oracle(info, cand, run_history(info, cand), belief=belief)
             except Exception:  # noqa
                 f = None
             if f is not None and f[2] == curfail[2] and f[1].split(" of ")[0] == curfail[1].split(" of ")[0]:
@@ -834,10 +917,12 @@ def run(rep):
     scenarios += int_scenarios(info, rng, thorough)
     # 5. late registration: a session registered while in exec / privilege_exec / configuration / tclsh / another session
     scenarios += reg_late_scenarios(info, thorough)
+    # 6. abort-then: a failing line under stop_on_failed (the platform _abort_config runs), then the next operations
+    scenarios += abort_then_scenarios(info, thorough)
 
     terms, kept, term_ix = [], [], []
     dist = {"by_suite": {}, "by_platform": {}, "op_kinds": {}, "results": {}, "history_len": {}, "in_known_region": 0,
-            "non_neutral": 0, "with_abort": 0, "register_while": {}, "oracle_only(extra_sessions)": 0, "belief_dummy_after_op": 0, "stacks": {"sync": 0, "async": 0},
+            "non_neutral": 0, "with_abort": 0, "abort_then": {}, "oracle_only(untranslated platform)": 0, "register_while": {}, "oracle_only(extra_sessions)": 0, "belief_dummy_after_op": 0, "stacks": {"sync": 0, "async": 0},
             "interrupted": {"cut_ops": 0, "by_kind": {}, "by_point": {"INav": 0, "ILine": 0, "pending(oracle-only)": 0},
                             "device_executed_cut_line": 0, "belief_dummy_after_cut": 0, "histories_in_model": 0,
                             "histories_oracle_only": 0, "fault_index_beyond_operation": 0}}
@@ -865,6 +950,15 @@ def run(rep):
                 dist["with_abort"] += 1
         if not neutral:
             dist["non_neutral"] += 1
+        if suite == "abort-then":
+            ia = [i for i, o in enumerate(sc["ops"]) if o.get("stop")][0]
+            if ia + 1 < len(obs):
+                ran_abort = any(l in ("abort", "rollback 0") for (_, l) in obs[ia]["log"])
+                nxt = sc["ops"][ia + 1]
+                same = (nxt.get("priv") or "configuration") == (sc["ops"][ia].get("priv") or "configuration") if nxt["op"] == "cfgs" else None
+                key = "%s/%s then %s%s" % (sc["platform"].split("_")[1], "abort-lines" if ran_abort else "no-abort-lines", nxt["op"],
+                                           "" if same is None else ("(same level)" if same else "(other level)"))
+                dist["abort_then"][key] = dist["abort_then"].get(key, 0) + 1
         nav = sum(1 for ob in obs for (_, l) in ob["log"] if l in pi_sc["line_ids"])
         rep.case((sc["platform"], sc["stack"], sc["login"], sc["secret"], json.dumps(sc["ops"], sort_keys=True)),
                  nontrivial=len(sc["ops"]) >= 3 and nav >= 3)
@@ -894,6 +988,8 @@ def run(rep):
         kept.append((sc, obs, suite))
         if sc.get("extra_sessions"):
             dist["oracle_only(extra_sessions)"] += 1      # session names outside the generated family: not in the model
+        elif untranslated(info, sc["platform"]):
+            dist["oracle_only(untranslated platform)"] += 1   # the tie is reported broken; the oracle still judges the real code
         elif not has_faults(sc) or points is not None:
             terms.append(case_term(info, sc, obs, points))
             term_ix.append(len(kept) - 1)
@@ -903,17 +999,30 @@ def run(rep):
                 dist["in_known_region"] += 1
             if suite == "known" and fail[2]:
                 known_seen += 1
-            oracle_fail.append((len(kept) - 1, fail))
+            # the property itself is about the device's log: where a history also shows a user line arriving in the wrong
+            # mode (not only a belief that differs from the device's mode), that is what gets reported
+            lines_fail = None
+            if not fail[2] and not has_faults(sc):
+                lines_fail = oracle(info, sc, obs, belief=False)
+                if lines_fail is not None and lines_fail[2]:
+                    lines_fail = None
+            oracle_fail.append((len(kept) - 1, lines_fail or fail, lines_fail is not None))
     # oracle failures: violations with a shrunk replay (known-finding signature -> KNOWN-FINDING line)
     reported = 0
-    for ix, fail in oracle_fail:
+    # device-log failures first, and among them one per suite before a second of the same suite (stable otherwise)
+    rank, seen_suite = {}, {}
+    for ix, fail, on_log in oracle_fail:
+        key = (on_log, kept[ix][2])
+        rank[ix] = seen_suite.get(key, 0)
+        seen_suite[key] = rank[ix] + 1
+    for ix, fail, on_log in sorted(oracle_fail, key=lambda t: (0 if t[2] else 1, rank[t[0]])):
         sc, obs, suite = kept[ix]
         if fail[2] and rep.known_match(SIG_KNOWN):
             rep.known(SIG_KNOWN)
             continue
         if reported >= 5:
             continue
-        sc2, fail2 = shrink(info, sc, fail)
+        sc2, fail2 = shrink(info, sc, fail, belief=not on_log)
         obs2 = run_history(info, sc2)
         report_failure(rep, info, sc2, obs2, fail2, "net-history/" + suite)
         reported += 1
@@ -921,7 +1030,7 @@ def run(rep):
         rep.notes.append("the listed known finding %s did not reproduce on this tree (fixed upstream?)" % SIG_KNOWN)
     # correspondence: the model on the same histories
     bad, log = common.eval_cases(rep.workdir, "cases_c03", HEADER, terms, "chk", shard=600)
-    n_unreported = len([1 for _, f in oracle_fail if not f[2]])
+    n_unreported = len([1 for _, f, _l in oracle_fail if not f[2]])
     rep.coverage["correspondence"] = {"suite": "net-history", "cases": len(terms), "distribution": dist,
                                       "model_disagreements": None if bad is None else len(bad),
                                       "oracle_failures": len(oracle_fail), "oracle_failures_outside_known_region": n_unreported,
@@ -952,6 +1061,12 @@ def run(rep):
                 "send_interactive(B), send_configs(A)} and t2 in {send_configs(B), send_command (thorough: + send_configs(), send_configs(A))}, "
                 "x login x sync/async (thorough: both registration orders); reg-late-prefix: the same on EOS with sessions deploy-blue / "
                 "deploy-green (one prompt), oracle-only. "
+                "abort-then (all five platforms, every registered session): open, register the sessions, send_config(s)(L, stop_on_failed=True) "
+                "whose k-th line fails (k = 0, 2; thorough 0-2 and after a send_configs at another level) for L in {default, every other "
+                "configuration level / session}, then t1 in {send_configs(L), send_config(L), send_configs(L) failing again, send_command, "
+                "send_interactive(L), acquire_priv(L), send_configs(another level), send_configs('configuration' named)} and t2 = send_command "
+                "(thorough: more t1 / t2), x login x sync/async; judged on the device's log also when the translator refuses _abort_config "
+                "(then not in the model). "
                 "non-trivial = at least 3 operations and at least 3 navigation/abort lines executed by the device; "
                 "distinct = (platform, stack, login, secret, operation list)" % L)
     for sc, obs, suite in kept[:1] + kept[len(kept) // 2: len(kept) // 2 + 1] + kept[-1:]:
@@ -961,7 +1076,7 @@ def run(rep):
         rep.broken.append("correspondence net-history (model evaluation failed)")
         rep.notes.append(log)
     elif bad:
-        failing = set(ix for ix, _ in oracle_fail)
+        failing = set(ix for ix, _, _l in oracle_fail)
         bad = [term_ix[b] for b in bad]
         for ix in bad[:5]:
             sc, obs, suite = kept[ix]
@@ -1014,6 +1129,9 @@ def replay(path):
         print("property holds on this history")
         return 0
     print("property FAILS on this history: op %d: %s%s" % (fail[0], fail[1], "  [known finding region: %s]" % SIG_KNOWN if fail[2] else ""))
+    on_log = None if has_faults(sc) else oracle(info, sc, obs, belief=False)
+    if on_log is not None and on_log[:2] != fail[:2]:
+        print("device log: op %d: %s" % (on_log[0], on_log[1]))
     return 1
 
 
@@ -1051,7 +1169,11 @@ MANIFEST = {
             "correspondence (all histories of length <= 2 (IOS-XR and thorough: 3) over a reduced alphabet x platforms x login levels x stacks, plus random "
             "and malformed histories, plus the late-registration histories: NX-OS and EOS, [register A,] go to exec / privilege_exec / configuration / "
             "tclsh / session A, register B there, then two of send_configs(B) (with and without a failing line + stop_on_failed) / send_configs(A) / "
-            "send_configs() / send_command / send_interactive(B)) and an independent oracle reads the device's own execution log; the oracle takes "
+            "send_configs() / send_command / send_interactive(B), plus the abort-then histories: on every platform and every configuration level / "
+            "registered session L, send_config(s)(L, stop_on_failed=True) whose k-th line fails so that the platform _abort_config runs, then "
+            "send_config(s) at the same level (only the belief decides whether acquire_priv is skipped) / at another level / at the default level / "
+            "send_command / send_interactive(L) / acquire_priv(L), then send_command) and an independent oracle reads the device's own execution log "
+            "(a history in which a user line arrived in the wrong mode is reported with that line, ahead of belief-only differences); the oracle takes "
             "a DUMMY belief for the known finding's premise only if the history accounts for it (login, generic mode switched on, an operation "
             "that did not complete) — a completed operation, registration in particular, that forgets a known level is not excused.",
     "note": "Trusted: Coq kernel + vm_compute; hand model coq/model/NetDriver.v (navigation, _process_acquire_priv, send loops, five _abort_config "
@@ -1070,6 +1192,9 @@ MANIFEST = {
             "prompt for the current one (seen on the unchanged tree, channel level, not explored); histories that are not in the model are "
             "oracle-only (not in the model: the device-log oracle and the belief observer judge them); interrupted histories use no enable secret "
             "(a cut inside the password dialogue starves the next prompt query); residue left unread by a cut operation is the real channel's "
-            "business (C01) and enters only through the runs.",
+            "business (C01) and enters only through the runs. The scenario loop and the device-log oracle do not depend on the translator's reading "
+            "of _abort_config: if gen_netdriver refuses that function on a platform (tie reported broken, props not compiled) the platform's "
+            "histories — abort-then included — are still run on both real drivers and judged ORACLE-ONLY (not put to the model; the lines the "
+            "untranslated abort step types after the failing line are not constrained, the level of every user line and the belief are).",
     "technique": "Coq: invariant over all histories (with interruption points) + per-platform finite check by vm_compute (reflection) + ast order fact + ast register fact; vm_compute correspondence of the model against both real drivers; fault-injecting scripted transports; device-log oracle",
 }
